@@ -10,12 +10,14 @@ def run(tier):
     f.out.assumptions = ['well-formedness of generated programs is by construction of the generator (targets exist, catch node, flags in range, no self-move, '
                          'moves before a HALT only go forward); external results may exceed their declared size or fail',
                          'every request runs under recover() and a 20 s watchdog (a request that does not return counts as a crash)',
-                         'some generated programs run with state.MaxLevel lowered to 3..5 so that histories reach the depth bound']
+                         'some generated programs run with state.MaxLevel lowered to 3..5 so that histories reach the depth bound',
+                         'example applications: examples/*/*.vis assembled by asm.Parse, templates from the example directories, generic stub functions for LOAD symbols (db and preprocessor have no .vis sources)']
     t = f.thorough
     f.out.stage('known-finding canonical cases'); f.known_cases()
     f.out.stage('A model check'); f.model_check(6 if t else 4)
     f.out.stage('B+C model histories on the real engine (exhaustive over each program alphabet + refused inputs)'); f.replay_model(5 if t else 3)
     f.out.stage('C random programs, junk inputs, both modes'); f.random(400 if t else 50, 30 if t else 20, 16, 'LP')
+    f.out.stage('C example applications of the repository'); f.examples(40 if t else 8, 14)
     f.out.stage('C paired runs over mem / fs / pg-fake'); f.pairs_stage(60 if t else 10, 12, 10)
     return f.finish('Model programs exhaustively over (selectors + unknown + empty + refused + over-long)^depth, random well-formed programs with junk '
                     'byte strings of length 0..300, in long-lived and persisted mode over three stores;')
